@@ -2,6 +2,7 @@ package main
 
 import (
 	"bytes"
+	"crypto/sha1"
 	"fmt"
 	"github.com/taskctl/taskctl/pkg/runner"
 	"math/rand"
@@ -504,6 +505,19 @@ func recordedAcrossFormats(col *Collector) {
 			t.AllowFailure = true
 			return t
 		}},
+		// a lot of output: in one write of a builtin, in the large pipe reads of an external command, without newline
+		{"long-line-from-a-builtin", func() *task.Task {
+			return task.FromCommands("echo " + strings.Repeat("x", 9000) + "; echo tail")
+		}},
+		{"many-lines-from-a-command", func() *task.Task { return task.FromCommands("seq 1 3000; seq 1 2000 >&2; echo tail") }},
+		{"large-output-then-failure", func() *task.Task {
+			return task.FromCommands("head -c 70000 /dev/zero | tr '\\0' z; seq 1 3000 >&2; exit 7")
+		}},
+		{"large-allowed-failure", func() *task.Task {
+			t := task.FromCommands("seq 1 5000; exit 2", "printf '%s' "+strings.Repeat("y", 5000))
+			t.AllowFailure = true
+			return t
+		}},
 		{"skipped", func() *task.Task { t := task.FromCommands("echo never"); t.Condition = "false"; return t }},
 		{"before-fails", func() *task.Task {
 			t := task.FromCommands("echo never")
@@ -542,7 +556,14 @@ func recordedAcrossFormats(col *Collector) {
 			if cs.Fail != "" {
 				break
 			}
-			rec[f] = fmt.Sprintf("err=%v errored=%v skipped=%v exit=%d stdout=%q stderr=%q", rerr != nil, t.Errored, t.Skipped, t.ExitCode, t.Log.Stdout.String(), t.Log.Stderr.String())
+			so, se := t.Log.Stdout.String(), t.Log.Stderr.String()
+			if len(so) > 300 {
+				so = fmt.Sprintf("%d bytes %x ...%s", len(so), sha1.Sum([]byte(so)), so[len(so)-40:])
+			}
+			if len(se) > 300 {
+				se = fmt.Sprintf("%d bytes %x ...%s", len(se), sha1.Sum([]byte(se)), se[len(se)-40:])
+			}
+			rec[f] = fmt.Sprintf("err=%v errored=%v skipped=%v exit=%d stdout=%q stderr=%q", rerr != nil, t.Errored, t.Skipped, t.ExitCode, so, se)
 		}
 		cs.Impl = rec[output.FormatRaw]
 		for _, f := range []string{output.FormatPrefixed, output.FormatCockpit} {
